@@ -8,6 +8,7 @@ import (
 	"fmt"
 	"log"
 	"math"
+	"math/bits"
 	"os"
 	"runtime"
 	"strings"
@@ -78,23 +79,35 @@ func OpInRange(x Value, orgOp tok.Token, org Value, endOp tok.Token, end Value) 
 func OpAdd(x Value, y Value) Value {
 	if xi, xok := SuIntToInt(x); xok {
 		if yi, yok := SuIntToInt(y); yok {
-			return IntVal(xi + yi)
+			if sum := xi + yi; (sum > xi) == (yi > 0) { // no overflow
+				return IntVal(sum)
+			}
 		}
 	}
 	return SuDnum{Dnum: dnum.Add(ToDnum(x), ToDnum(y))}
 }
 
 func OpAdd1(x Value) Value {
-	if n, ok := SuIntToInt(x); ok {
+	if n, ok := SuIntToInt(x); ok && n != math.MaxInt {
 		return IntVal(n + 1)
 	}
 	return SuDnum{Dnum: dnum.Add(ToDnum(x), dnum.One)}
 }
 
+// absInt returns the absolute value of n as a uint64 (correct for math.MinInt)
+func absInt(n int) uint64 {
+	if n < 0 {
+		return -uint64(n)
+	}
+	return uint64(n)
+}
+
 func OpSub(x Value, y Value) Value {
 	if xi, xok := SuIntToInt(x); xok {
 		if yi, yok := SuIntToInt(y); yok {
-			return IntVal(xi - yi)
+			if dif := xi - yi; (dif < xi) == (yi > 0) { // no overflow
+				return IntVal(dif)
+			}
 		}
 	}
 	return SuDnum{Dnum: dnum.Sub(ToDnum(x), ToDnum(y))}
@@ -103,7 +116,14 @@ func OpSub(x Value, y Value) Value {
 func OpMul(x Value, y Value) Value {
 	if xi, xok := SuIntToInt(x); xok {
 		if yi, yok := SuIntToInt(y); yok {
-			return IntVal(xi * yi)
+			hi, lo := bits.Mul64(absInt(xi), absInt(yi))
+			if neg := (xi < 0) != (yi < 0); hi == 0 && // no overflow
+				(lo <= math.MaxInt || (neg && lo == 1<<63)) {
+				if neg {
+					return IntVal(int(-lo))
+				}
+				return IntVal(int(lo))
+			}
 		}
 	}
 	return SuDnum{Dnum: dnum.Mul(ToDnum(x), ToDnum(y))}
@@ -112,7 +132,7 @@ func OpMul(x Value, y Value) Value {
 func OpDiv(x Value, y Value) Value {
 	if yi, yok := SuIntToInt(y); yok && yi != 0 {
 		if xi, xok := SuIntToInt(x); xok {
-			if xi%yi == 0 {
+			if xi%yi == 0 && !(xi == math.MinInt && yi == -1) {
 				return IntVal(xi / yi)
 			}
 		}
@@ -182,7 +202,7 @@ func OpUnaryPlus(x Value) Value {
 }
 
 func OpUnaryMinus(x Value) Value {
-	if xi, ok := SuIntToInt(x); ok {
+	if xi, ok := SuIntToInt(x); ok && xi != math.MinInt {
 		return IntVal(-xi)
 	}
 	if x == EmptyStr || x == False {
